@@ -29,7 +29,7 @@ pub struct ModSubject<'a> {
     pub input_customs: Vec<(String, Vec<u8>)>,
 }
 
-fn raw_sections(b: &[u8]) -> Vec<(u8, String, Vec<u8>)> {
+pub fn raw_sections(b: &[u8]) -> Vec<(u8, String, Vec<u8>)> {
     // (id, custom name, raw contents) straight from the framing; independent of any decoder
     let mut out = vec![];
     let mut p = 8usize;
